@@ -91,8 +91,17 @@ type rCfg struct {
 	Order string `json:"order,omitempty"`
 }
 
+// opStep is one version of a reservation-operating-mode pod's owner specification (annotation
+// scheduling.koordinator.sh/reservation-owners): a list of owners, or no usable specification at all.
+type opStep struct {
+	Mode   string      `json:"m"` // owners | removed | empty | broken | emptylist
+	Owners []ownerSpec `json:"owners,omitempty"`
+	Ready  *bool       `json:"ready,omitempty"` // nil/true: Running and Ready
+}
+
 type rOp struct {
 	K      string            `json:"k"`
+	Script []opStep          `json:"script,omitempty"` // opmode
 	R      string            `json:"r,omitempty"`
 	P      string            `json:"p,omitempty"`
 	N      int               `json:"n,omitempty"`
@@ -645,6 +654,40 @@ func genSubset(g *sim.Rng, m rl) []string {
 	return out
 }
 
+// genROpts: a restricted-options list. Mostly a subset of the reserved dimensions; sometimes it also names
+// resources the reservation does not reserve (a template shared between reservation kinds, a dimension that a
+// later spec change drops), and sometimes ONLY such resources: the option then selects none of the reserved
+// dimensions and, as the API documentation of the annotation says for "no resources configured", the
+// reservation restricts all of its reserved dimensions.
+func genROpts(g *sim.Rng, alloc rl) []string {
+	var foreign []string
+	for _, d := range append(append([]string(nil), allDims...), "nvidia.com/gpu") {
+		if _, ok := alloc[d]; !ok {
+			foreign = append(foreign, d)
+		}
+	}
+	pickForeign := func() []string {
+		n := g.Range(1, 2)
+		perm := g.Perm(len(foreign))
+		var out []string
+		for i := 0; i < n && i < len(foreign); i++ {
+			out = append(out, foreign[perm[i]])
+		}
+		return out
+	}
+	var out []string
+	switch x := g.Intn(10); {
+	case x < 6:
+		return genSubset(g, alloc)
+	case x < 8: // only resources that are not reserved
+		out = pickForeign()
+	default: // some reserved ones and some that are not
+		out = append(genSubset(g, alloc), pickForeign()...)
+	}
+	sort.Strings(out)
+	return out
+}
+
 func genOwner(g *sim.Rng, podNames []string, st *rStore) ownerSpec {
 	o := ownerSpec{}
 	if g.Bool(0.45) {
@@ -751,7 +794,7 @@ func genResvFields(g *sim.Rng, op *rOp, podNames []string, st *rStore) {
 	op.Alloc = genAlloc(g)
 	op.ROpts = nil
 	if op.Policy == "Restricted" && g.Bool(0.5) {
-		op.ROpts = genSubset(g, op.Alloc)
+		op.ROpts = genROpts(g, op.Alloc)
 	}
 	op.Inner = nil
 	if g.Bool(0.2) {
@@ -802,7 +845,7 @@ func (resvEngine) Generate(p *sim.Plan, g *sim.Rng) {
 	maxR, maxP := g.Range(1, 6), g.Range(0, 12)
 	add := func(op rOp) bool {
 		switch op.K {
-		case "sched", "resv_sched", "gap", "relist", "resync", "dup_add", "drain":
+		case "sched", "resv_sched", "gap", "relist", "resync", "dup_add", "drain", "opmode":
 			ops = append(ops, op)
 			return true
 		}
@@ -917,6 +960,33 @@ func (resvEngine) Generate(p *sim.Plan, g *sim.Rng) {
 		newPod()
 	}
 	for len(ops) < nOps {
+		if g.Bool(0.04) {
+			// a pod in reservation operating mode (a pod that acts as a reservation) lives through a few versions
+			// of its owner specification; the live pods of the run are the candidates
+			op := rOp{K: "opmode", N: g.Intn(cfg.Nodes), Alloc: genAlloc(g)}
+			op.Script = append(op.Script, opStep{Mode: "owners", Owners: genOwners(g, pNames, st)})
+			for i := g.Range(1, 3); i > 0; i-- {
+				st1 := opStep{}
+				switch y := g.Intn(20); {
+				case y < 7:
+					st1.Mode, st1.Owners = "owners", genOwners(g, pNames, st)
+				case y < 11:
+					st1.Mode = "removed"
+				case y < 13:
+					st1.Mode = "empty"
+				case y < 16:
+					st1.Mode = "broken"
+				case y < 18:
+					st1.Mode = "emptylist"
+				default: // unchanged owners, the pod loses readiness
+					prev := op.Script[len(op.Script)-1]
+					st1.Mode, st1.Owners, st1.Ready = prev.Mode, prev.Owners, bp(false)
+				}
+				op.Script = append(op.Script, st1)
+			}
+			add(op)
+			continue
+		}
 		x := g.Intn(100)
 		if c19 && g.Bool(0.3) {
 			x = 20 + g.Intn(33) // C19 wants binds: more scheduling attempts
@@ -960,7 +1030,7 @@ func (resvEngine) Generate(p *sim.Plan, g *sim.Rng) {
 					op.Alloc = genAlloc(g)
 					op.ROpts, op.Inner = nil, nil
 					if op.Policy == "Restricted" && g.Bool(0.4) {
-						op.ROpts = genSubset(g, op.Alloc)
+						op.ROpts = genROpts(g, op.Alloc)
 					}
 				case 1: // add one dimension
 					for _, d := range allDims {
@@ -974,7 +1044,7 @@ func (resvEngine) Generate(p *sim.Plan, g *sim.Rng) {
 						if len(op.ROpts) > 0 && g.Bool(0.5) {
 							op.ROpts = nil
 						} else {
-							op.ROpts = genSubset(g, op.Alloc)
+							op.ROpts = genROpts(g, op.Alloc)
 						}
 					} else {
 						op.Unsch = !op.Unsch
